@@ -60,6 +60,14 @@ func (f *Expt) Call(s *slip.Scope, args slip.List, depth int) (result slip.Objec
 			return slip.Fixnum(x)
 		}
 	}
+	if pow, ok := args[1].(slip.Fixnum); ok { // a rational to an integer power is exact
+		switch base := args[0].(type) {
+		case *slip.Bignum:
+			return f.rationalPow(s, args, depth, (*big.Int)(base), big.NewInt(1), pow)
+		case *slip.Ratio:
+			return f.rationalPow(s, args, depth, (*big.Rat)(base).Num(), (*big.Rat)(base).Denom(), pow)
+		}
+	}
 	switch base := args[0].(type) {
 	case slip.Real:
 		switch pow := args[1].(type) {
@@ -83,4 +91,18 @@ func (f *Expt) Call(s *slip.Scope, args slip.List, depth int) (result slip.Objec
 		slip.TypePanic(s, depth, "base", base, "number")
 	}
 	return
+}
+
+func (f *Expt) rationalPow(s *slip.Scope, args slip.List, depth int, num, denom *big.Int, pow slip.Fixnum) slip.Object {
+	e := big.NewInt(int64(pow))
+	e.Abs(e)
+	n := new(big.Int).Exp(num, e, nil)
+	d := new(big.Int).Exp(denom, e, nil)
+	if pow < 0 {
+		if n.Sign() == 0 {
+			slip.DivisionByZeroPanic(s, depth, f, args, "divide by zero")
+		}
+		n, d = d, n
+	}
+	return ratReduce(new(big.Rat).SetFrac(n, d))
 }
